@@ -23,8 +23,13 @@ class NullLogger:
 
 
 def patch_spec(extra_modules=(), extra=None):
-    spec = engine.std_patch(*SOLVER_MODULES, *extra_modules, extra=extra)
+    spec = engine.std_patch(*SOLVER_MODULES, "tdgl.solver.screening", *extra_modules, extra=extra)
     spec["tdgl.solver.solver"]["logger"] = NullLogger()
+    import tdgl.solver.screening as scr
+
+    # the numba kernel is executed through its Python source (`.py_func`); the compiled LLVM
+    # code is outside the claim
+    spec["tdgl.solver.solver"]["get_A_induced_numba"] = scr.get_A_induced_numba.py_func
     return spec
 
 
